@@ -3,6 +3,7 @@ import EaselModel.Buffer.Model
 import EaselModel.Buffer.SpecHist
 import EaselModel.Buffer.Safe
 import EaselModel.Buffer.MemDriver  -- round4-mem
+import EaselModel.Buffer.OpenDriver -- round4-open
 /-! Line-protocol driver for the C05 model (esl_buffer.c).
 
   open mode=<string|stream|pipe|file|allfile|mmap|auto|open> ps=<pagesize> hex=<input bytes>
@@ -88,6 +89,11 @@ def stepLine (st : Option DState) (line : String) : Option DState × String :=
       let s : Sess := { b := openBuf m ps src }
       (some { s := s, a := AState.init src, P := if ps0 = 0 then 512 else ps0 }, fmt { st := .ok } s)
     | _, _, _ => (st, "bad-op")
+  else if ws.head? == some "fsopen" then -- round4-open
+    match EaselModel.Buffer.OpenDriver.openLine ws with -- round4-open
+    | some (ans, some (b, src, P)) => (some { s := { b := b }, a := AState.init src, P := P }, ans) -- round4-open
+    | some (ans, none) => (none, ans) -- round4-open
+    | none => (st, "bad-op") -- round4-open
   else if ws.head? == some "openfail" then
     -- documented failures of the openers (constant answers; see h_buffer.c)
     match arg? ws "kind" with
